@@ -72,6 +72,11 @@ func Publish(rep *Report) int {
 	newViol := 0
 	printedKnown := map[string]bool{}
 	repDir := filepath.Join(VerifDir(), "replays", rep.Property)
+	if old, _ := filepath.Glob(filepath.Join(repDir, rep.Tier+"_*.json")); len(old) > 0 {
+		for _, f := range old {
+			os.Remove(f) // artefacts of earlier runs of this tier
+		}
+	}
 	sort.SliceStable(res.Violations, func(i, j int) bool { return res.Violations[i].Cause < res.Violations[j].Cause })
 	var knownHit []string
 	seq := 0
